@@ -334,6 +334,37 @@ def run_case(desc, ctx):
                 if type(c) is not type(m) or not np.array_equal(Vc, sh.V) or Ic != sh.I:
                     ctx.violation("copy", "copy", "copy_differs_from_source", "a copy does not equal its source", producer=sh.producer, with_attributes=attrs)
                     raise CaseAbort()
+                # corner records (element, owner) and, when attributes are copied, every attribute value
+                for name in ("face_corners", "cell_corners", "cell_faces"):
+                    if hasattr(m, name):
+                        try:
+                            a_ = [(int(getattr(m, name).element(i)), int(getattr(m, name).adj(i))) for i in range(len(getattr(m, name)))]
+                            b_ = [(int(getattr(c, name).element(i)), int(getattr(c, name).adj(i))) for i in range(len(getattr(c, name)))]
+                        except Exception:
+                            a_, b_ = 0, 1
+                        if a_ != b_:
+                            ctx.violation("copy", "copy", "copy_differs_from_source", "a copy does not equal its source (corner records)", producer=sh.producer, container=name)
+                            raise CaseAbort()
+                if attrs:
+                    for name in ("vertices", "edges", "faces", "cells", "face_corners", "cell_corners", "cell_faces"):
+                        if not hasattr(m, name):
+                            continue
+                        cm, cc = getattr(m, name), getattr(c, name)
+                        if set(cm.attributes) != set(cc.attributes):
+                            ctx.violation("copy", "copy", "copy_differs_from_source", "a copy with attributes does not carry the attributes of its source",
+                                          producer=sh.producer, container=name, source=sorted(cm.attributes), copy=sorted(cc.attributes))
+                            raise CaseAbort()
+                        for an in cm.attributes:
+                            am, ac = cm.get_attribute(an), cc.get_attribute(an)
+                            if am is ac:
+                                ctx.violation("copy", "copy", "copy_shares_storage_with_source", "a copy shares an attribute object with its source", producer=sh.producer, attribute=an)
+                                raise CaseAbort()
+                            for i in range(len(cm)):
+                                if not np.array_equal(np.asarray(am[i]), np.asarray(ac[i])):
+                                    ctx.violation("copy", "copy", "copy_differs_from_source", "an attribute value of the copy differs from its source",
+                                                  producer=sh.producer, container=name, attribute=an, index=i)
+                                    raise CaseAbort()
+                            ctx.obs("copy", "attribute_values", len(cm))
                 pool.append(c)
                 shadows.append(Shadow(c, "copy(%s)" % sh.producer))
                 made_by_copy_or_merge.add(len(pool) - 1)
@@ -491,7 +522,10 @@ def run_case(desc, ctx):
                 i, k = rng.randrange(len(sh.V)), rng.randrange(3)
                 x = rng.uniform(-5, 5)
                 before_alias = _internal_alias(m)
-                ok, _ = ctx.call("edit_component", lambda: m.vertices[i].__setitem__(k, x), monitor="transform")
+                if hasattr(m.vertices[i], "z") and rng.random() < 0.5:
+                    ok, _ = ctx.call("edit_component", lambda: setattr(m.vertices[i], "xyz"[k], x), monitor="transform")  # Vec.x / .y / .z setters
+                else:
+                    ok, _ = ctx.call("edit_component", lambda: m.vertices[i].__setitem__(k, x), monitor="transform")
                 want = sh.V.copy()
                 want[i, k] = x
                 _check_operated(ctx, m, sh, want, "edit_component", 0.0)
